@@ -872,6 +872,12 @@ class LearnerND(BaseLearner):
     def remove_unfinished(self):
         # XXX: implement this method
         self.pending_points = set()
+        # The simplices that were subdivided by pending points are no longer
+        # in the queue (their entry was popped when they were subdivided), so
+        # put them back, otherwise they can never be chosen again.
+        for simplex in self._subtriangulations:
+            if simplex in self._losses:
+                self._simplex_queue.add((self._losses[simplex], simplex, None))
         self._subtriangulations = {}
         self._pending_to_simplex = {}
 
